@@ -497,6 +497,9 @@ def normalise(x, in_seq=False, rows=False):
         return normalise(kids[1], in_seq, rows)
     if len(kids) == 3 and (names[0], names[2]) == ("@", ";"):
         seq = kids[1]
+        while (not seq.is_leaf() and isinstance(seq.value, list) and len(seq.value) == 1
+               and _is_telem(seq.value[0]) and seq.value[0].name in ("SINB", "SEQ")):
+            seq = seq.value[0]          # wrapper chain SIN -> SINB -> SEQ that was not squashed (names are not judged)
         sv = seq.value
         if not (seq.is_leaf() and isinstance(sv, list)):
             raise Shape("sequence-not-a-list-of-elements", repr(seq)[:160], in_seq)
